@@ -84,12 +84,11 @@ ThreadPool::ThreadPool()
       m_isRunning(true) {}
 
 void ThreadPool::start(Runnable *runnable) {
-    if (!m_isRunning) {
-        m_isRunning = true;
-    }
-
     {
+        // the flag is part of the workers' wait predicate: it is only
+        // changed with the queue mutex held
         std::scoped_lock locker(m_queueMutex);
+        m_isRunning = true;
         m_queue.emplace_back(runnable);
     }
 
@@ -118,7 +117,13 @@ void ThreadPool::clear() {
 }
 
 void ThreadPool::stop() {
-    m_isRunning = false;
+    {
+        // a worker that has evaluated its wait predicate but has not blocked
+        // yet holds this mutex, so it cannot miss the notification below
+        std::scoped_lock locker(m_queueMutex);
+        m_isRunning = false;
+    }
+
     m_condition.notify_all();
 
     {
